@@ -114,3 +114,61 @@ def create_match_obligations():
         out.append(('py:_create_match#ends-at-the-earlier-of-era-until-and-interval-end#%d' % k, p.pc, z3.And([un.fields[n] == w for n, w in zip(ORDER, want_until)])))
         out.append(('py:_create_match#refers-to-the-era#%d' % k, p.pc, z3.BoolVal(p.value.fields['zoneEra'] is era)))
     return out
+
+
+def process_transition_obligations():
+    """ActiveSelectorInPlace._process_transition <-> ExtendedZoneProcessor::processActiveTransition: active flags and the latest
+    prior transition, stated over the position of the transition relative to the match"""
+    ORDER = ('y', 'M', 'd', 'ss', 'f')
+    W, S, U = ord('w'), ord('s'), ord('u')
+
+    def dt(tag, suffix=None):
+        f = z3.Int('pt_%s_f' % tag) if suffix is None else z3.IntVal(suffix)
+        return TupleRec({'y': z3.Int('pt_%s_y' % tag), 'M': z3.Int('pt_%s_M' % tag), 'd': z3.Int('pt_%s_d' % tag), 'ss': z3.Int('pt_%s_ss' % tag), 'f': f}, ORDER)
+    lex_lt = lambda a, b: z3.Or(a[0] < b[0], z3.And(a[0] == b[0], z3.Or(a[1] < b[1], z3.And(a[1] == b[1], z3.Or(a[2] < b[2], z3.And(a[2] == b[2], a[3] < b[3]))))))
+    four = lambda r: [r.fields[k] for k in ('y', 'M', 'd', 'ss')]
+    out = []
+    for with_prior in (False, True):
+        start, until = dt('start'), dt('until')
+        tw, ts, tu = dt('tw', W), dt('ts', S), dt('tu', U)
+        t_act0 = z3.Bool('pt_t_active0')
+        tr = Record({'transitionTime': tw, 'transitionTimeS': ts, 'transitionTimeU': tu, 'isActive': t_act0, '_id': 1})
+        mt = Record({'startDateTime': start, 'untilDateTime': until})
+        p_time = dt('pw', W)
+        p_act0 = z3.Bool('pt_p_active0')
+        prior = Record({'transitionTime': p_time, 'isActive': p_act0, '_id': 2}) if with_prior else None
+        ok = lambda f: z3.Or(f == W, f == S, f == U)
+        ex = PyExec(ZS)
+        paths = ex.run('ActiveSelectorInPlace._process_transition', {'match': mt, 'transition': tr, 'prior': prior},
+                       pre=[ok(start.fields['f']), ok(until.fields['f'])])
+        rd = lambda f: [z3.If(f == S, ts.fields[k], z3.If(f == U, tu.fields[k], tw.fields[k])) for k in ('y', 'M', 'd', 'ss')]
+        rs, ru = rd(start.fields['f']), rd(until.fields['f'])
+        before = lex_lt(rs, four(start))
+        at_start = z3.And([a == b for a, b in zip(rs, four(start))])
+        inside = lex_lt(ru, four(until))
+        pos = z3.If(before, -1, z3.If(at_start, 0, z3.If(inside, 1, 2)))
+        later = lex_lt(four(p_time), four(tw)) if with_prior else z3.BoolVal(True)
+        takes_over = z3.And(pos <= 0, z3.Or(z3.BoolVal(not with_prior), pos == 0, later))
+        tag = 'with-prior' if with_prior else 'no-prior'
+        for k, p in enumerate(paths):
+            if p.outcome != 'return':
+                out.append(('py:_process_transition[%s]#returns#%d' % (tag, k), p.pc, z3.BoolVal(False)))
+                continue
+            rv = p.value
+            rid = rv.fields['_id'] if isinstance(rv, Record) else 0
+            t1 = p.env['transition']
+            t_act1 = as_bool(t1.fields['isActive'])
+            p1 = p.env.get('prior')
+            # the object bound to `prior` before the call: its flag after the call (it may have been rebound to the transition)
+            if with_prior:
+                pr_after = p1 if (isinstance(p1, Record) and p1.fields.get('_id') == 2) else None
+                p_act1 = as_bool(pr_after.fields['isActive']) if pr_after is not None else None
+            goals = [('after-the-match-is-inactive', z3.Implies(pos == 2, z3.And(z3.Not(t_act1), z3.BoolVal(rid == (2 if with_prior else 0))))),
+                     ('inside-the-match-is-active', z3.Implies(pos == 1, z3.And(t_act1, z3.BoolVal(rid == (2 if with_prior else 0))))),
+                     ('at-or-before-the-start-becomes-the-prior-when-it-is-the-latest', z3.Implies(takes_over, z3.And(z3.BoolVal(rid == 1), t_act1)))]
+            if with_prior:
+                goals.append(('an-earlier-one-changes-nothing', z3.Implies(z3.And(pos < 0, z3.Not(takes_over)),
+                                                                        z3.And(z3.BoolVal(rid == 2), t_act1 == t_act0))))
+            for lbl, g in goals:
+                out.append(('py:_process_transition[%s]#%s#%d' % (tag, lbl, k), p.pc, g))
+    return out
